@@ -67,7 +67,7 @@ def check(run):
     g, s = ev.methods.get('__getstate__'), ev.methods.get('__setstate__')
     run.anchor(g and s, r, 'Event.__getstate__/__setstate__')
     gr = [n for n in q.walk(g.node, False) if isinstance(n, ast.Return)]
-    sa = [n for n in q.walk(s.node, False) if isinstance(n, ast.Assign)]
+    sa = [n for n in q.walk(s.node, False) if isinstance(n, ast.Assign) and 'self.' in q.unparse(n.targets[0])]
     good = len(gr) == 1 and isinstance(gr[0].value, ast.Tuple) and len(sa) == 1 and isinstance(sa[0].targets[0], ast.Tuple) and \
         [q.unparse(e) for e in gr[0].value.elts] == [q.unparse(e) for e in sa[0].targets[0].elts] and q.unparse(sa[0].value) == q.param_names(s.node)[1]
     run.check(good, r, 'Event', '__setstate__ unpacks exactly what __getstate__ packs, in the same order', 'layouts differ', s.node)
@@ -79,7 +79,7 @@ def check(run):
     g, s = fc.methods.get('__getstate__'), fc.methods.get('__setstate__')
     run.anchor(g and s, r, 'FrozenContext.__getstate__/__setstate__')
     gr = [n for n in q.walk(g.node, False) if isinstance(n, ast.Return)]
-    sa = [n for n in q.walk(s.node, False) if isinstance(n, ast.Assign)]
+    sa = [n for n in q.walk(s.node, False) if isinstance(n, ast.Assign) and 'self.' in q.unparse(n.targets[0])]
     good = len(gr) == 1 and len(sa) == 1 and q.unparse(gr[0].value) == q.unparse(sa[0].targets[0]) and q.unparse(sa[0].value) == q.param_names(s.node)[1]
     run.check(good, r, 'FrozenContext', '__setstate__ restores the field __getstate__ returns', 'differs', s.node)
     pg = run.fn('PythonEvaluator.__getstate__')
